@@ -129,8 +129,7 @@ fn private_is_dirty(
                         log_debug!("{}  converted target -> source {:?}", depth, f.id());
                         f.is_generated = false;
                         f.failed_runid = Some(0);
-                        f.save(ptx)?;
-                        f.refresh(ptx)?;
+                        (cb.forget_target)(&mut f, ptx)?;
                         debug_assert!(!f.is_generated());
                     }
                 } else {
@@ -270,6 +269,8 @@ pub struct DirtyCallbacks<'a> {
     set_checked:
         Box<dyn FnMut(&mut File, &mut ProcessTransaction<'_>) -> Result<(), RedoError> + 'a>,
     log_override: Box<dyn Fn(&RedoPath) + 'a>,
+    forget_target:
+        Box<dyn FnMut(&mut File, &mut ProcessTransaction<'_>) -> Result<(), RedoError> + 'a>,
 }
 
 impl<'a> Default for DirtyCallbacks<'a> {
@@ -279,6 +280,10 @@ impl<'a> Default for DirtyCallbacks<'a> {
             is_checked: Box::new(File::is_checked),
             set_checked: Box::new(File::set_checked_save),
             log_override: Box::new(state::warn_override),
+            forget_target: Box::new(|f, ptx| {
+                f.save(ptx)?;
+                f.refresh(ptx)
+            }),
         }
     }
 }
@@ -317,6 +322,20 @@ impl<'a> DirtyCallbacksBuilder<'a> {
         f: F,
     ) -> Self {
         self.callbacks.set_checked = Box::new(f);
+        self
+    }
+
+    /// Sets the function called to record that a generated file that has
+    /// vanished is not a target any more.  A read-only caller can keep the
+    /// change in memory.
+    #[inline]
+    pub fn forget_target<
+        F: FnMut(&mut File, &mut ProcessTransaction<'_>) -> Result<(), RedoError> + 'a,
+    >(
+        mut self,
+        f: F,
+    ) -> Self {
+        self.callbacks.forget_target = Box::new(f);
         self
     }
 
